@@ -14,7 +14,8 @@ CHUNK = 4
 RULE = ("8 function/gradient pairs x dimensions 1..12 (2.. for Rosenbrock, Beale) x lattice "
         "points: ALL of V^n for n<=3 (quick) / n<=4 (thorough), V = 9 non-integer, "
         "non-half-integer values in [-5,5] away from 0, and 27 cyclic patterns of V for "
-        "larger n; oracle: 6th-order central differences of the package's own function "
+        "larger n, each point passed as a fresh ndarray, through one work array overwritten in "
+        "place, as a list and as a tuple; oracle: 6th-order central differences of the package's own function "
         "(h=1e-3) agree within 1e-7 relative, gradient has the shape of x, function returns "
         "a real scalar; non-trivial = point with at least two distinct coordinates (or n=1); "
         "distinct = distinct (function, point)")
@@ -76,12 +77,37 @@ def run(case):
     f = getattr(lbfgsb, case["fn"])
     g = getattr(lbfgsb, case["fn"] + "_grad")
     viol, keys, nex = [], [], 0
-    for x in points(case):
+    # first sweep: one work array, overwritten in place from point to point, nothing else
+    # evaluated in between (value and gradient alternately first)
+    buf = np.empty(case["n"])
+    swept = []
+    for i, x in enumerate(points(case)):
+        buf[:] = x
+        if i % 2:
+            gb = np.array(g(buf), copy=True)
+            fb = f(buf)
+        else:
+            fb = f(buf)
+            gb = np.array(g(buf), copy=True)
+        swept.append((fb, gb))
+    for i, x in enumerate(points(case)):
         nex += 1
         sub = dict(case, point=[float(t) for t in x])
         x_in = x.copy()
+        # input-kind letters: a fresh ndarray, the reused work array, a list, a tuple
+        fb, gb = swept[i]
+        fl, gl = f(x.tolist()), g(x.tolist())
+        gt = g(tuple(x.tolist()))
         fx = f(x)
         gx = g(x)
+        for name, fv, gv in (("reused_array", fb, gb), ("list", fl, gl), ("tuple", fx, gt)):
+            if np.shape(gv) != x.shape:
+                viol.append(V("gradient_shape_differs_from_x", _case=sub, input=name,
+                              shape=np.shape(gv)))
+            elif not (np.array_equal(np.asarray(gv, float), np.asarray(gx, float))
+                      and float(fv) == float(fx)):
+                viol.append(V("answer_depends_on_how_the_point_is_passed", _case=sub,
+                              input=name))
         if not np.array_equal(x, x_in):
             viol.append(V("argument_modified", _case=sub))
         if np.ndim(fx) != 0 or np.iscomplexobj(fx) or not np.isfinite(fx):
